@@ -34,6 +34,11 @@ TABLE = {
             'Invariance under i->a*i+b, replica renaming/reordering, additive constants, |c|-scaling, repeatability, independence from stale state and foreign dictionary entries, '
             'parameter precedence, non-mutation of the data and tau_int>=1/2 / non-negative errors are proven for all sample values on every path of the enumerated cases.',
             'Real-number semantics ("finite" not expressible); scaling claimed away from the |Gamma(0)|<10*tiny underflow guard; chain length bounded; histories by one inductive step.'),
+    'C06': (True, 'symbolic execution of covariance/_covariance_element/sort_corr/error_band on z3 reals with size-triggered term abstraction; SMT (QF_NRA) identities incl. sqrt lemmas',
+            'Symmetry, diagonal = dvalue^2, unit-diagonal correlation, zero covariance for disjoint support, permutation equivariance, Pearson identity on the common '
+            'configurations, the general normalisation formula, J1 Sigma J2^T, |corr|<=1 (compositional, thorough), sort_corr = key permutation and error_band^2 = g^T C g are proven '
+            'for all sample values / gradients / matrix entries over the enumerated layouts.',
+            'Real-number semantics; PSD for n>2, eigenvalue smoothing and the Cholesky-based inverse are outside (LAPACK); data assumed non-degenerate (non-zero variance on common configurations).'),
 }
 
 NOT_YET = 'check not built yet in this session (work in progress; see DESIGN.md section 4 for the plan)'
